@@ -699,8 +699,9 @@ theorem Agree.rewind {L G : Nat → Bool} (prog : Prog) (bts : Array BtInsn) {a 
     (h : Agree L G a b) : Agree L G (rewind prog bts a) (rewind prog bts b) := h.rewindL prog _
 
 /-- The instruction `i` at address `j` stays inside the region `R` of the program (all addresses
-it can continue at or push are in `R`) and writes only loop slots in `L` and group slots in `G`. -/
-def insnIn (prog : Prog) (R L G : Nat → Bool) (j : Nat) (i : Insn) : Bool :=
+it can continue at or push are in `R`) and writes only loop slots in `L` and group slots in `G`.
+The nested run of a look-around starts at an address satisfying `N`. -/
+def insnIn (prog : Prog) (R N L G : Nat → Bool) (j : Nat) (i : Insn) : Bool :=
   match i with
   | .goal => true
   | .justFail => true
@@ -712,16 +713,16 @@ def insnIn (prog : Prog) (R L G : Nat → Bool) (j : Nat) (i : Insn) : Bool :=
     | some (.enterLoop id _ _ _ exit) => R (b + 1) && R exit && L id
     | _ => true
   | .loop1 _ _ _ => R (j + 2)
-  | .lookahead _ sg eg k => R (j + 1) && R k && (List.range (eg - sg)).all (fun d => G (sg + d))
-  | .lookbehind _ sg eg k => R (j + 1) && R k && (List.range (eg - sg)).all (fun d => G (sg + d))
+  | .lookahead _ sg eg k => N (j + 1) && R k && (List.range (eg - sg)).all (fun d => G (sg + d))
+  | .lookbehind _ sg eg k => N (j + 1) && R k && (List.range (eg - sg)).all (fun d => G (sg + d))
   | .beginCaptureGroup g => R (j + 1) && G g
   | .endCaptureGroup g => R (j + 1) && G g
   | .resetCaptureGroup g => R (j + 1) && G g
   | _ => R (j + 1)
 
 /-- `R` is a closed region of the program with footprint `L` (loop slots), `G` (group slots). -/
-def Region (prog : Prog) (R L G : Nat → Bool) : Prop :=
-  ∀ j i, R j = true → prog.insns[j]? = some i → insnIn prog R L G j i = true
+def Region (prog : Prog) (R N L G : Nat → Bool) : Prop :=
+  ∀ j i, R j = true → prog.insns[j]? = some i → insnIn prog R N L G j i = true
 
 /-- A stack record that resumes inside `R` / restores only slots of the footprint. -/
 def recIn (prog : Prog) (R L G : Nat → Bool) : BtInsn → Bool
@@ -751,24 +752,24 @@ theorem RecsIn.of_push {prog : Prog} {R L G : Nat → Bool} {bts : Array BtInsn}
   ⟨fun x hx => h x (Array.mem_push.2 (Or.inl hx)), h r (Array.mem_push.2 (Or.inr rfl))⟩
 
 /-- What one instruction inside a closed region does. -/
-def ActIn (prog : Prog) (R L G : Nat → Bool) (ip : Nat) (st : State) (bts : Array BtInsn) : Act → Prop
+def ActIn (prog : Prog) (R N L G : Nat → Bool) (ip : Nat) (st : State) (bts : Array BtInsn) : Act → Prop
   | .cont ip' _ st' bts' => R ip' = true ∧ RecsIn prog R L G bts' ∧ Agree L G st' st
   | .back st' bts' => RecsIn prog R L G bts' ∧ Agree L G st' st
   | .goal _ st' => st' = st
   | .look _ _ sg eg k st' bts' =>
-    st' = st ∧ bts' = bts ∧ R (ip + 1) = true ∧ R k = true ∧ ∀ g, sg ≤ g → g < eg → G g = true
+    st' = st ∧ bts' = bts ∧ N (ip + 1) = true ∧ R k = true ∧ ∀ g, sg ≤ g → g < eg → G g = true
   | .err _ => True
 
-theorem nextOrBt_in (prog : Prog) (R L G : Nat → Bool) (r : Except Unit (Option Nat)) (site : String)
+theorem nextOrBt_in (prog : Prog) (R N L G : Nat → Bool) (r : Except Unit (Option Nat)) (site : String)
     (ip : Nat) (st : State) (bts : Array BtInsn) (hR : R (ip + 1) = true) (hb : RecsIn prog R L G bts) :
-    ActIn prog R L G ip st bts (nextOrBt r site ip st bts) := by
+    ActIn prog R N L G ip st bts (nextOrBt r site ip st bts) := by
   unfold nextOrBt
   split <;> simp [ActIn, hR, hb, Agree.refl]
 
-theorem wordBoundaryAct_in (prog : Prog) (R L G : Nat → Bool) (inp : Input) (f : Nat → Bool)
+theorem wordBoundaryAct_in (prog : Prog) (R N L G : Nat → Bool) (inp : Input) (f : Nat → Bool)
     (invert : Bool) (ip pos : Nat) (st : State) (bts : Array BtInsn) (hR : R (ip + 1) = true)
     (hb : RecsIn prog R L G bts) :
-    ActIn prog R L G ip st bts (wordBoundaryAct inp f invert ip pos st bts) := by
+    ActIn prog R N L G ip st bts (wordBoundaryAct inp f invert ip pos st bts) := by
   unfold wordBoundaryAct
   split
   · simp [ActIn]
@@ -776,20 +777,20 @@ theorem wordBoundaryAct_in (prog : Prog) (R L G : Nat → Bool) (inp : Input) (f
     · simp [ActIn]
     · simp only []; split <;> simp [ActIn, hR, hb, Agree.refl]
 
-theorem lineAct_in (prog : Prog) (R L G : Nat → Bool) (r : Except Unit (Option Nat)) (multiline : Bool)
+theorem lineAct_in (prog : Prog) (R N L G : Nat → Bool) (r : Except Unit (Option Nat)) (multiline : Bool)
     (site : String) (ip pos : Nat) (st : State) (bts : Array BtInsn) (hR : R (ip + 1) = true)
     (hb : RecsIn prog R L G bts) :
-    ActIn prog R L G ip st bts (lineAct r multiline site ip pos st bts) := by
+    ActIn prog R N L G ip st bts (lineAct r multiline site ip pos st bts) := by
   unfold lineAct
   split
   · simp [ActIn]
   · simp [ActIn, hR, hb, Agree.refl]
   · split <;> simp [ActIn, hR, hb, Agree.refl]
 
-theorem groupAct_in (prog : Prog) (R L G : Nat → Bool) (g : Nat) (upd : GroupData → GroupData)
+theorem groupAct_in (prog : Prog) (R N L G : Nat → Bool) (g : Nat) (upd : GroupData → GroupData)
     (site : String) (ip pos : Nat) (st : State) (bts : Array BtInsn) (hR : R (ip + 1) = true)
     (hG : G g = true) (hb : RecsIn prog R L G bts) :
-    ActIn prog R L G ip st bts (groupAct g upd site ip pos st bts) := by
+    ActIn prog R N L G ip st bts (groupAct g upd site ip pos st bts) := by
   unfold groupAct
   split
   · simp [ActIn]
@@ -840,9 +841,9 @@ theorem runScmLoop_in (prog : Prog) (R L G : Nat → Bool) (inp : Input) (fwd : 
     · exact hb
 
 /-- Every instruction inside a closed region stays inside it. -/
-theorem step_in (prog : Prog) (R L G : Nat → Bool) (hReg : Region prog R L G) (inp : Input)
+theorem step_in (prog : Prog) (R N L G : Nat → Bool) (hReg : Region prog R N L G) (inp : Input)
     (ip pos : Nat) (fwd : Bool) (st : State) (bts : Array BtInsn) (hip : R ip = true)
-    (hb : RecsIn prog R L G bts) : ActIn prog R L G ip st bts (step prog inp ip pos fwd st bts) := by
+    (hb : RecsIn prog R L G bts) : ActIn prog R N L G ip st bts (step prog inp ip pos fwd st bts) := by
   unfold step
   split
   · trivial
@@ -850,31 +851,31 @@ theorem step_in (prog : Prog) (R L G : Nat → Bool) (hReg : Region prog R L G) 
     have hI := hReg ip insn hip hinsn
     split <;> simp only [insnIn, Bool.and_eq_true] at hI
     · split
-      · exact nextOrBt_in _ _ _ _ _ _ _ _ _ hI hb
+      · exact nextOrBt_in _ _ _ _ _ _ _ _ _ _ hI hb
       · exact ⟨hb, Agree.refl ..⟩
-    · exact nextOrBt_in _ _ _ _ _ _ _ _ _ hI hb
-    · exact nextOrBt_in _ _ _ _ _ _ _ _ _ hI hb
-    · exact nextOrBt_in _ _ _ _ _ _ _ _ _ hI hb
-    · exact nextOrBt_in _ _ _ _ _ _ _ _ _ hI hb
+    · exact nextOrBt_in _ _ _ _ _ _ _ _ _ _ hI hb
+    · exact nextOrBt_in _ _ _ _ _ _ _ _ _ _ hI hb
+    · exact nextOrBt_in _ _ _ _ _ _ _ _ _ _ hI hb
+    · exact nextOrBt_in _ _ _ _ _ _ _ _ _ _ hI hb
     · split
       · trivial
-      · exact nextOrBt_in _ _ _ _ _ _ _ _ _ hI hb
-    · exact nextOrBt_in _ _ _ _ _ _ _ _ _ hI hb
-    · exact nextOrBt_in _ _ _ _ _ _ _ _ _ hI hb
-    · exact wordBoundaryAct_in _ _ _ _ _ _ _ _ _ _ _ hI hb
-    · exact wordBoundaryAct_in _ _ _ _ _ _ _ _ _ _ _ hI hb
-    · exact lineAct_in _ _ _ _ _ _ _ _ _ _ _ hI hb
-    · exact lineAct_in _ _ _ _ _ _ _ _ _ _ _ hI hb
+      · exact nextOrBt_in _ _ _ _ _ _ _ _ _ _ hI hb
+    · exact nextOrBt_in _ _ _ _ _ _ _ _ _ _ hI hb
+    · exact nextOrBt_in _ _ _ _ _ _ _ _ _ _ hI hb
+    · exact wordBoundaryAct_in _ _ _ _ _ _ _ _ _ _ _ _ hI hb
+    · exact wordBoundaryAct_in _ _ _ _ _ _ _ _ _ _ _ _ hI hb
+    · exact lineAct_in _ _ _ _ _ _ _ _ _ _ _ _ hI hb
+    · exact lineAct_in _ _ _ _ _ _ _ _ _ _ _ _ hI hb
     · exact ⟨hI, hb, Agree.refl ..⟩
-    · exact groupAct_in _ _ _ _ _ _ _ _ _ _ _ hI.1 hI.2 hb
-    · exact groupAct_in _ _ _ _ _ _ _ _ _ _ _ hI.1 hI.2 hb
-    · exact groupAct_in _ _ _ _ _ _ _ _ _ _ _ hI.1 hI.2 hb
+    · exact groupAct_in _ _ _ _ _ _ _ _ _ _ _ _ hI.1 hI.2 hb
+    · exact groupAct_in _ _ _ _ _ _ _ _ _ _ _ _ hI.1 hI.2 hb
+    · exact groupAct_in _ _ _ _ _ _ _ _ _ _ _ _ hI.1 hI.2 hb
     · split
       · trivial
       · split
         · split
-          · exact nextOrBt_in _ _ _ _ _ _ _ _ _ hI hb
-          · exact nextOrBt_in _ _ _ _ _ _ _ _ _ hI hb
+          · exact nextOrBt_in _ _ _ _ _ _ _ _ _ _ hI hb
+          · exact nextOrBt_in _ _ _ _ _ _ _ _ _ _ hI hb
         · exact ⟨hI, hb, Agree.refl ..⟩
     · next neg sg eg k =>
       refine ⟨rfl, rfl, hI.1.1, hI.1.2, ?_⟩
@@ -1199,7 +1200,7 @@ theorem OutIn.trans {L G : Nat → Bool} {st1 st0 : State} {o : Outcome}
 /-- **Footprint of a run**: a run that starts inside a closed region `R` of the program, on a stack
 whose records resume inside `R`, changes (whether it matches or fails) only the loop slots `L` and
 the group slots `G` of the region. -/
-theorem run_in (prog : Prog) (R L G : Nat → Bool) (hReg : Region prog R L G) (inp : Input) (limit : Nat) :
+theorem run_in (prog : Prog) (R L G : Nat → Bool) (hReg : Region prog R R L G) (inp : Input) (limit : Nat) :
     ∀ (sf ip pos : Nat) (fwd : Bool) (st : State) (bts : Array BtInsn) (steps peak : Nat),
       R ip = true → RecsIn prog R L G bts →
       OutIn L G st (run prog inp limit sf ip pos fwd st bts steps peak) := by
@@ -1221,7 +1222,7 @@ theorem run_in (prog : Prog) (R L G : Nat → Bool) (hReg : Region prog R L G) (
     rw [run_succ]
     split
     · trivial
-    · have hs := step_in prog R L G hReg inp ip pos fwd st bts hip hb
+    · have hs := step_in prog R R L G hReg inp ip pos fwd st bts hip hb
       generalize step prog inp ip pos fwd st bts = a at hs
       cases a with
       | err e => trivial
@@ -1269,6 +1270,13 @@ def lookLoopIds (prog : Prog) : List Nat :=
 
 def lookLoop (prog : Prog) (id : Nat) : Bool := (lookLoopIds prog).contains id
 
+/-- `id` is the loop id of an `EnterLoop` strictly between `ip` and `k`. -/
+def bodyLoop (prog : Prog) (ip k : Nat) (id : Nat) : Bool :=
+  (List.range (k - (ip + 1))).any fun d =>
+    match prog.insns[ip + 1 + d]? with
+    | some (.enterLoop id' _ _ _ _) => id' == id
+    | _ => false
+
 /-- `ip < j < k`. -/
 def inBody (ip k : Nat) (j : Nat) : Bool := decide (ip < j) && decide (j < k)
 
@@ -1277,7 +1285,7 @@ def inRange (sg eg : Nat) (g : Nat) : Bool := decide (sg ≤ g) && decide (g < e
 
 /-- Every look-around body `(ip, continuation)` is non-empty and closed: its instructions continue
 inside the body (the body ends with a `Goal`), write only capture groups in
-`[start_group, end_group)` and only loop slots of `lookLoopIds`. A decidable check; the emitter
+`[start_group, end_group)` and only loop slots of loops inside the body. A decidable check; the emitter
 establishes it (the body of a look-around is emitted contiguously, followed by `Goal`). -/
 def lookClosed (prog : Prog) : Bool :=
   (List.range prog.insns.size).all fun ip =>
@@ -1286,13 +1294,13 @@ def lookClosed (prog : Prog) : Bool :=
       decide (ip + 1 < k) &&
       (List.range (k - (ip + 1))).all fun d =>
         match prog.insns[ip + 1 + d]? with
-        | some i => insnIn prog (inBody ip k) (lookLoop prog) (inRange sg eg) (ip + 1 + d) i
+        | some i => insnIn prog (inBody ip k) (inBody ip k) (bodyLoop prog ip k) (inRange sg eg) (ip + 1 + d) i
         | none => true
     | none => true
 
 theorem lookClosed_region {prog : Prog} (hc : lookClosed prog = true) {ip : Nat} {i : Insn}
     {sg eg k : Nat} (hi : prog.insns[ip]? = some i) (hl : lookOf i = some (sg, eg, k)) :
-    ip + 1 < k ∧ Region prog (inBody ip k) (lookLoop prog) (inRange sg eg) := by
+    ip + 1 < k ∧ Region prog (inBody ip k) (inBody ip k) (bodyLoop prog ip k) (inRange sg eg) := by
   have hip : ip < prog.insns.size := by
     rcases Nat.lt_or_ge ip prog.insns.size with h | h
     · exact h
@@ -1305,6 +1313,32 @@ theorem lookClosed_region {prog : Prog} (hc : lookClosed prog = true) {ip : Nat}
   have h2 := List.all_eq_true.1 h.2 (j - (ip + 1)) (List.mem_range.2 (by omega))
   have : ip + 1 + (j - (ip + 1)) = j := by omega
   simpa [this, hi'] using h2
+
+theorem bodyLoop_lookLoop {prog : Prog} {ip : Nat} {i : Insn} {sg eg k : Nat}
+    (hi : prog.insns[ip]? = some i) (hl : lookOf i = some (sg, eg, k)) {id : Nat}
+    (h : bodyLoop prog ip k id = true) : lookLoop prog id = true := by
+  have hip : ip < prog.insns.size := by
+    rcases Nat.lt_or_ge ip prog.insns.size with h' | h'
+    · exact h'
+    · simp [Array.getElem?_eq_none h'] at hi
+  simp only [bodyLoop, List.any_eq_true, List.mem_range] at h
+  obtain ⟨d, hd, hm⟩ := h
+  simp only [lookLoop, lookLoopIds, List.contains_eq_mem, List.mem_flatMap, List.mem_range,
+    decide_eq_true_eq]
+  refine ⟨ip, hip, ?_⟩
+  simp only [hi, Option.bind_some, hl, List.mem_filterMap, List.mem_range]
+  refine ⟨d, hd, ?_⟩
+  split at hm
+  · next id' _ _ _ _ he => simp only [beq_iff_eq] at hm; subst hm; simp
+  · cases hm
+
+theorem OutIn.mono {L G L' : Nat → Bool} {st : State} {o : Outcome} (h : OutIn L G st o)
+    (hL : ∀ i, L i = true → L' i = true) : OutIn L' G st o := by
+  cases o with
+  | matched p st' a b => exact Agree.mono h hL (fun _ h => h)
+  | failed st' a b => exact Agree.mono h hL (fun _ h => h)
+  | outOfFuel => trivial
+  | error e => trivial
 
 theorem splice_restores {LL : Nat → Bool} {sg eg : Nat} {st2 st : State}
     (h : Agree LL (inRange sg eg) st2 st) (hse : ¬ (sg > eg ∨ eg > st.groups.size)) :
@@ -1407,9 +1441,10 @@ theorem run_failed_frame (prog : Prog) (hc : lookClosed prog = true) (inp : Inpu
         · trivial
         · next hse =>
           simp only [Bool.or_eq_true, decide_eq_true_eq] at hse
-          have hin := run_in prog _ _ _ hReg inp limit sf (ip + 1) pos dirFwd st #[.exhausted] (steps + 1)
+          have hin := (run_in prog _ _ _ hReg inp limit sf (ip + 1) pos dirFwd st #[.exhausted] (steps + 1)
             (if peak < bts.size then bts.size else peak) (by simp [inBody]; omega)
-            (by intro r hr; simp at hr; subst hr; rfl)
+            (by intro r hr; simp at hr; subst hr; rfl)).mono (L' := lookLoop prog)
+            (fun id h => bodyLoop_lookLoop hi hl h)
           generalize run prog inp limit sf (ip + 1) pos dirFwd st #[.exhausted] (steps + 1)
             (if peak < bts.size then bts.size else peak) = o at hin
           cases o with
@@ -1622,7 +1657,7 @@ theorem nested_new_witness :
 end Regress.Regressions.OldBacktrack
 
 /-!
-# The backtracker refines the PikeVM (fragment without `Loop1CharBody`)
+# The backtracker refines the PikeVM (all programs without `Loop1CharBody`)
 
 Lock-step simulation between `Bt.run` and `Pk.runStates`: the PikeVM's explicit state stack is
 (the saved state of every choice record of `bts`, bottom first) followed by the current state.
@@ -1666,6 +1701,8 @@ def succs (prog : Prog) (j : Nat) : List Nat :=
     | .alt s => [j + 1, s]
     | .enterLoop _ _ _ _ _ => []
     | .loopAgain _ => []
+    | .lookahead _ _ _ k => [j + 1, k]
+    | .lookbehind _ _ _ k => [j + 1, k]
     | _ => [j + 1]
 
 /-- Loop bodies are entered only through their `EnterLoop`, and the exit of a loop lies outside
@@ -1688,14 +1725,19 @@ def loopsStructured (prog : Prog) : Bool :=
         | _ => true)
      | _ => true)
 
-/-- The fragment: no `Loop1CharBody`, no look-arounds. -/
+/-- Instructions handled by the one-instruction simulation `step_sim`. -/
 def simpleInsn : Insn → Bool
   | .loop1 _ _ _ => false
   | .lookahead _ _ _ _ => false
   | .lookbehind _ _ _ _ => false
   | _ => true
 
-def simpleProg (prog : Prog) : Bool := prog.insns.all simpleInsn
+/-- The fragment: no `Loop1CharBody`. -/
+def noLoop1Insn : Insn → Bool
+  | .loop1 _ _ _ => false
+  | _ => true
+
+def simpleProg (prog : Prog) : Bool := prog.insns.all noLoop1Insn
 
 /-- ASCII input holds bytes. -/
 def inpOK (inp : Input) : Bool :=
@@ -2135,8 +2177,8 @@ theorem sim_group {prog : Prog} {st : Bt.State} {bts : Array BtInsn} {cur : Pk.S
 theorem decide_zero_ge (min : Nat) : decide (0 ≥ min) = (min == 0) := by
   cases min <;> simp
 
-theorem simple_of_getElem? {prog : Prog} (h : simpleProg prog = true) {j : Nat} {i : Insn}
-    (hi : prog.insns[j]? = some i) : simpleInsn i = true := by
+theorem noLoop1_of_getElem? {prog : Prog} (h : simpleProg prog = true) {j : Nat} {i : Insn}
+    (hi : prog.insns[j]? = some i) : noLoop1Insn i = true := by
   obtain ⟨hj, rfl⟩ := Array.getElem?_eq_some_iff.1 hi
   exact Array.all_eq_true.1 h j hj
 
@@ -2146,9 +2188,10 @@ theorem elementTryFrom_some {k : InputKind} {c c' : Nat} (h : elementTryFrom k c
 
 set_option linter.unusedSimpArgs false in
 /-- **One instruction**: `Bt.step` and `Pk.tryMatchState` correspond on related configurations. -/
-theorem step_sim {prog : Prog} (hs : loopsStructured prog = true) (hsimple : simpleProg prog = true)
+theorem step_sim {prog : Prog} (hs : loopsStructured prog = true)
     {inp : Input} (hok : inpOK inp = true) (look : Pk.Runner) (d : Nat) (fwd : Bool)
     {st : Bt.State} {bts : Array BtInsn} {cur : Pk.State} {saved : List Pk.State} (steps peak : Nat)
+    (hsimple : ∀ i, prog.insns[cur.ip]? = some i → simpleInsn i = true)
     (hrel : StRel prog cur.ip st cur) (hsnap : SnapRel prog bts st saved) :
     StepSim prog st bts cur saved steps peak (Bt.step prog inp cur.ip cur.pos fwd st bts)
       (Pk.tryMatchState prog inp look (d + 1) cur fwd steps peak) := by
@@ -2158,7 +2201,7 @@ theorem step_sim {prog : Prog} (hs : loopsStructured prog = true) (hsimple : sim
   | none => exact .errB _ _
   | some insn =>
     simp only []
-    have hsi := simple_of_getElem? hsimple hinsn
+    have hsi := hsimple _ hinsn
     have hm : cur.ip + 1 ∈ succs prog cur.ip →
         ∀ id, live prog id (cur.ip + 1) = true → live prog id cur.ip = true :=
       fun hmem id h => structured_succ hs hinsn hmem h
@@ -2360,94 +2403,567 @@ theorem step_sim {prog : Prog} (hs : loopsStructured prog = true) (hsimple : sim
     | lookahead neg sg eg k => simp [simpleInsn] at hsi
     | lookbehind neg sg eg k => simp [simpleInsn] at hsi
 
+/-! ## Look-arounds: nesting structure -/
+
+/-- `j` is a look-around whose body `(j, k)` contains `x` (only `x < k` is checked here). -/
+def lookOver (prog : Prog) (j x : Nat) : Bool :=
+  match prog.insns[j]?.bind lookOf with
+  | some (_, _, k) => decide (x < k)
+  | none => false
+
+def enclAux (prog : Prog) (x : Nat) : Nat → Option Nat
+  | 0 => none
+  | j + 1 => if lookOver prog j x then some j else enclAux prog x j
+
+/-- The innermost look-around whose body contains `x`: the largest `j < x` that is a look-around
+with continuation `> x`. A run of the backtracker stays at addresses with the same `encl`. -/
+def encl (prog : Prog) (x : Nat) : Option Nat := enclAux prog x x
+
+theorem enclAux_some {prog : Prog} {x n j : Nat} (h : enclAux prog x n = some j) : j < n := by
+  induction n with
+  | zero => simp [enclAux] at h
+  | succ n ih =>
+    simp only [enclAux] at h
+    split at h
+    · cases h; omega
+    · have := ih h; omega
+
+theorem enclAux_ge {prog : Prog} {x n j : Nat} (hj : j < n) (hl : lookOver prog j x = true) :
+    ∃ j', enclAux prog x n = some j' ∧ j ≤ j' := by
+  induction n with
+  | zero => omega
+  | succ n ih =>
+    simp only [enclAux]
+    split
+    · exact ⟨n, rfl, by omega⟩
+    · next hn =>
+      have : j < n := by
+        rcases Nat.lt_or_ge j n with h | h
+        · exact h
+        · have : j = n := by omega
+          subst this; exact absurd hl hn
+      exact ih this
+
+/-- An address inside the body of the look-around `j` has a different `encl` than `j` itself. -/
+theorem encl_body_ne {prog : Prog} {j : Nat} {i : Insn} {sg eg k x : Nat}
+    (hi : prog.insns[j]? = some i) (hl : lookOf i = some (sg, eg, k)) (h1 : j < x) (h2 : x < k) :
+    encl prog x ≠ encl prog j := by
+  have hover : lookOver prog j x = true := by simp [lookOver, hi, hl, h2]
+  obtain ⟨j', hj', hle⟩ := enclAux_ge (n := x) h1 hover
+  intro heq
+  unfold encl at heq
+  rw [hj'] at heq
+  have := enclAux_some heq.symm
+  omega
+
+def enclIs (prog : Prog) (J : Option Nat) (y : Nat) : Bool := encl prog y == J
+
+def allTrue (_ : Nat) : Bool := true
+
+/-- The static nesting conditions on look-arounds used by the simulation (all decidable, true of the
+emitter's output):
+* every instruction continues (and pushes choice records) at addresses with the same `encl`; the
+  body of a look-around `j` starts at `j + 1` with `encl = some j`;
+* a loop that is live at the continuation of a look-around is live throughout its body (the
+  look-around lies inside the loop body);
+* the loops inside a look-around body are live only inside that body;
+* `lookClosed` (bodies are closed regions that write only their own groups and loops). -/
+def looksStructured (prog : Prog) : Bool :=
+  lookClosed prog &&
+  (List.range prog.insns.size).all fun x =>
+    match prog.insns[x]? with
+    | none => true
+    | some i =>
+      insnIn prog (enclIs prog (encl prog x)) allTrue allTrue allTrue x i &&
+      (match lookOf i with
+       | none => true
+       | some (_, _, k) =>
+         (encl prog (x + 1) == some x) &&
+         (loopIds prog).all (fun id =>
+           (!live prog id k || (List.range (k - (x + 1))).all (fun d => live prog id (x + 1 + d))) &&
+           (!bodyLoop prog x k id ||
+             (List.range (prog.insns.size + 1)).all (fun y => !live prog id y || inBody x k y))))
+
+theorem live_lt_size {prog : Prog} {id x : Nat} (h : live prog id x = true) : x < prog.insns.size := by
+  simp only [live, List.any_eq_true, Bool.and_eq_true, decide_eq_true_eq] at h
+  obtain ⟨t, ht, ⟨_, _⟩, h3⟩ := h
+  simp only [loopTriples, List.mem_filterMap, List.mem_range] at ht
+  obtain ⟨l, hl, hm⟩ := ht
+  split at hm
+  · split at hm
+    · cases hm; simp at h3; omega
+    · cases hm
+  · cases hm
+
+section looks
+variable {prog : Prog} (hl : looksStructured prog = true)
+include hl
+
+theorem looks_closed : lookClosed prog = true := by
+  simp only [looksStructured, Bool.and_eq_true] at hl; exact hl.1
+
+theorem looks_at {x : Nat} {i : Insn} (hi : prog.insns[x]? = some i) :
+    insnIn prog (enclIs prog (encl prog x)) allTrue allTrue allTrue x i = true ∧
+    (∀ sg eg k, lookOf i = some (sg, eg, k) →
+      encl prog (x + 1) = some x ∧
+      (∀ id, live prog id k = true → ∀ y, x < y → y < k → live prog id y = true) ∧
+      (∀ id, bodyLoop prog x k id = true → ∀ y, live prog id y = true → x < y ∧ y < k)) := by
+  simp only [looksStructured, Bool.and_eq_true] at hl
+  have h := List.all_eq_true.1 hl.2 x (List.mem_range.2 (lt_size_of_getElem? hi))
+  simp only [hi, Bool.and_eq_true] at h
+  refine ⟨h.1, ?_⟩
+  intro sg eg k hlk
+  have h2 := h.2
+  simp only [hlk, Bool.and_eq_true, beq_iff_eq] at h2
+  refine ⟨h2.1, ?_, ?_⟩
+  · intro id hlive y hy1 hy2
+    have := live_all h2.2 hlive
+    simp only [Bool.and_eq_true, hlive, Bool.not_true, Bool.false_or] at this
+    have h3 := List.all_eq_true.1 this.1 (y - (x + 1)) (List.mem_range.2 (by omega))
+    rwa [show x + 1 + (y - (x + 1)) = y by omega] at h3
+  · intro id hb y hlive
+    have := live_all h2.2 hlive
+    simp only [Bool.and_eq_true, hb, Bool.not_true, Bool.false_or] at this
+    have h3 := List.all_eq_true.1 this.2 y (List.mem_range.2 (by have := live_lt_size hlive; omega))
+    simpa [hlive, inBody] using h3
+
+/-- The addresses with a given `encl` form a closed region (a look-around's nested run excepted). -/
+theorem region_encl (J : Option Nat) : Region prog (enclIs prog J) allTrue allTrue allTrue := by
+  intro x i hx hi
+  have := (looks_at hl hi).1
+  simp only [enclIs, beq_iff_eq] at hx
+  rwa [hx] at this
+
+end looks
+
+/-! ## Changing dead loop slots -/
+
+/-- The address at which a choice record resumes. -/
+def resumeIp : BtInsn → Option Nat
+  | .setPosition ip _ => some ip
+  | .enterNonGreedyLoop ip _ _ => some (ip + 1)
+  | _ => none
+
+theorem StRel.congr {prog : Prog} {D : Nat → Bool} {x : Nat} {a a' : Bt.State} {s : Pk.State}
+    (h : StRel prog x a s) (ha : Agree D (fun _ => false) a' a)
+    (hd : ∀ id, D id = true → live prog id x = false) : StRel prog x a' s := by
+  refine ⟨h.groups.trans ha.groups_eq.symm, h.lsize.trans ha.lsize.symm, ?_⟩
+  intro id hlive
+  have hD : D id = false := by
+    cases hD : D id
+    · rfl
+    · rw [hd id hD] at hlive; cases hlive
+  rw [ha.loops id hD]
+  exact h.loops id hlive
+
+/-- `SnapRel` is insensitive to changes of loop slots that are dead at every address where a choice
+record of the stack resumes. -/
+theorem SnapRel.congr {prog : Prog} {D : Nat → Bool} {bts : Array BtInsn} {st : Bt.State}
+    {saved : List Pk.State} (h : SnapRel prog bts st saved) :
+    ∀ {st' : Bt.State}, Agree D (fun _ => false) st' st →
+      (∀ r ∈ bts, ∀ x, resumeIp r = some x → ∀ id, D id = true → live prog id x = false) →
+      SnapRel prog bts st' saved := by
+  induction h with
+  | bottom b st => intro st' _ _; exact .bottom _ _
+  | choice b st ip pos s saved h1 h2 h3 _ ih =>
+    intro st' ha hd
+    refine .choice _ _ _ _ _ _ h1 h2 (h3.congr ha ?_) (ih ha ?_)
+    · exact hd _ (Array.mem_push.2 (Or.inr rfl)) ip rfl
+    · exact fun r hr => hd r (Array.mem_push.2 (Or.inl hr))
+  | loopRec b st id d saved _ ih =>
+    intro st' ha hd
+    refine .loopRec _ _ _ _ _ (ih (ha.restore prog (.setLoopData id d)) ?_)
+    exact fun r hr => hd r (Array.mem_push.2 (Or.inl hr))
+  | groupRec b st id d saved _ ih =>
+    intro st' ha hd
+    refine .groupRec _ _ _ _ _ (ih (ha.restore prog (.setCaptureGroup id d)) ?_)
+    exact fun r hr => hd r (Array.mem_push.2 (Or.inl hr))
+  | ngl b st ip origPos data id mn mx gr ex s saved h1 h2 h3 h4 _ ih =>
+    intro st' ha hd
+    refine .ngl _ _ _ _ _ _ _ _ _ _ _ _ h1 h2 h3 ?_ (ih (ha.restore prog (.setLoopData id _)) ?_)
+    · exact h4.congr (ha.restore prog (.setLoopData id _)) (hd _ (Array.mem_push.2 (Or.inr rfl)) (ip + 1) rfl)
+    · exact fun r hr => hd r (Array.mem_push.2 (Or.inl hr))
+
 /-! ## The runs -/
 
-/-- Corresponding outcomes: same match end, same capture groups, same tick count; `.error`
-outcomes of either machine are not compared. -/
-def OutSim : Bt.Outcome → Pk.Outcome → Prop
+/-- Corresponding outcomes of two runs started at tick count `steps0` at addresses with `encl = J`:
+same match end, same tick count, final states related at the `Goal` reached (in particular equal
+capture groups); `.error` outcomes of either machine are not compared. -/
+def OutSim (prog : Prog) (J : Option Nat) (steps0 : Nat) : Bt.Outcome → Pk.Outcome → Prop
   | .error _, _ => True
   | _, .error _ => True
-  | .matched e st s _, .matched e' st' s' _ => e = e' ∧ st'.groups = st.groups ∧ s = s' ∧ st'.pos = e'
-  | .failed _ s _, .failed s' _ => s = s'
+  | .matched e st s _, .matched e' st' s' _ =>
+    e = e' ∧ s = s' ∧ steps0 ≤ s ∧ st'.pos = e' ∧ StRel prog st'.ip st st' ∧ encl prog st'.ip = J
+  | .failed _ s _, .failed s' _ => s = s' ∧ steps0 ≤ s
   | .outOfFuel, .outOfFuel => True
   | _, _ => False
 
-theorem OutSim.errP (x : Bt.Outcome) (e : String) : OutSim x (.error e) := by
+theorem OutSim.errB {prog : Prog} {J : Option Nat} {n : Nat} (e : String) (x : Pk.Outcome) :
+    OutSim prog J n (.error e) x := by
   cases x <;> trivial
+
+theorem OutSim.errP {prog : Prog} {J : Option Nat} {n : Nat} (x : Bt.Outcome) (e : String) :
+    OutSim prog J n x (.error e) := by
+  cases x <;> trivial
+
+theorem OutSim.mono {prog : Prog} {J : Option Nat} {n m : Nat} {x : Bt.Outcome} {y : Pk.Outcome}
+    (h : OutSim prog J n x y) (hm : m ≤ n) : OutSim prog J m x y := by
+  cases x <;> cases y <;> simp only [OutSim] at h ⊢ <;> try trivial
+  · exact ⟨h.1, h.2.1, by omega, h.2.2.2⟩
+  · exact ⟨h.1, by omega⟩
+
+/-- What `runStates` does with the result of `try_match_state`. -/
+def pkAfter (prog : Prog) (inp : Input) (limit sf : Nat) (rest : Array Pk.State) (fwd : Bool) :
+    Pk.SM → Pk.Outcome
+  | .err e => .error e
+  | .outOfFuel => .outOfFuel
+  | .fail _ steps peak => Pk.runStates prog inp limit sf rest fwd steps peak
+  | .cont s steps peak => Pk.runStates prog inp limit sf (rest.push s) fwd steps peak
+  | .complete s steps peak => .matched s.pos s steps peak
+  | .split s new steps peak => Pk.runStates prog inp limit sf ((rest.push s).push new) fwd steps peak
+
+theorem runStates_succ_push (prog : Prog) (inp : Input) (limit sf : Nat) (rest : Array Pk.State)
+    (cur : Pk.State) (fwd : Bool) (steps peak : Nat) :
+    Pk.runStates prog inp limit (sf + 1) (rest.push cur) fwd steps peak =
+      if steps ≥ limit then .outOfFuel else
+      pkAfter prog inp limit sf rest fwd
+        (Pk.tryMatchState prog inp
+          (fun s0 dirFwd steps peak => Pk.runStates prog inp limit sf #[s0] dirFwd steps peak)
+          (prog.insns.size + 1) cur fwd (steps + 1)
+          (if peak < (rest.push cur).size then (rest.push cur).size else peak)) := by
+  rw [Pk.runStates]
+  simp only [Array.back?_push, Array.pop_push]
+  split
+  · rfl
+  · generalize Pk.tryMatchState prog inp _ (prog.insns.size + 1) cur fwd (steps + 1) _ = m
+    cases m <;> rfl
+
+theorem runStates_empty (prog : Prog) (inp : Input) (limit sf : Nat) (fwd : Bool) (steps peak : Nat) :
+    Pk.runStates prog inp limit (sf + 1) #[] fwd steps peak = .failed steps peak := by
+  rw [Pk.runStates]; rfl
+
+/-- The statement of the simulation for structural fuel `sf`. -/
+def RunSimAt (prog : Prog) (inp : Input) (limit sf : Nat) : Prop :=
+  ∀ (fwd : Bool) (st : Bt.State) (bts : Array BtInsn) (saved : List Pk.State)
+    (cur : Pk.State) (steps peakB peakP : Nat) (J : Option Nat),
+    StRel prog cur.ip st cur → SnapRel prog bts st saved → limit ≤ steps + sf →
+    encl prog cur.ip = J → RecsIn prog (enclIs prog J) allTrue allTrue bts →
+    OutSim prog J steps (Bt.run prog inp limit sf cur.ip cur.pos fwd st bts steps peakB)
+      (Pk.runStates prog inp limit (sf + 1) (saved.reverse.toArray.push cur) fwd steps peakP)
+
+theorem reverse_cons_toArray {α} (s : α) (saved : List α) :
+    (s :: saved).reverse.toArray = saved.reverse.toArray.push s := by simp
+
+/-- `break 'backtrack` against popping the PikeVM's stack. -/
+theorem back_sim {prog : Prog} {inp : Input} {limit sf : Nat} (ih : RunSimAt prog inp limit sf)
+    (fwd : Bool) {st : Bt.State} {bts : Array BtInsn} {saved : List Pk.State} (steps peakB peakP : Nat)
+    {J : Option Nat} (hsnap : SnapRel prog bts st saved) (hfuel : limit ≤ steps + sf)
+    (hb : RecsIn prog (enclIs prog J) allTrue allTrue bts) :
+    OutSim prog J steps (backtrackThen prog inp limit sf fwd st bts steps peakB)
+      (Pk.runStates prog inp limit (sf + 1) saved.reverse.toArray fwd steps peakP) := by
+  unfold backtrackThen
+  have hin := tryBacktrack_in prog (enclIs prog J) allTrue allTrue inp fwd bts.size bts st rfl hb
+  rcases tryBacktrack_sim prog inp fwd hsnap with ⟨e, he⟩ | hres
+  · rw [he]; exact OutSim.errB _ _
+  · cases saved with
+    | nil =>
+      obtain ⟨st'', bts'', he⟩ := hres
+      rw [he]
+      simp only [List.reverse_nil, runStates_empty]
+      exact ⟨rfl, Nat.le_refl _⟩
+    | cons s saved' =>
+      obtain ⟨st'', bts'', he, h5, h6⟩ := hres
+      rw [he] at hin ⊢
+      rw [reverse_cons_toArray]
+      simp only [BtIn, enclIs, beq_iff_eq] at hin
+      exact ih fwd st'' bts'' saved' s steps _ _ J h5 h6 hfuel hin.1 hin.2.1
+
+/-- The part of one `runStates`/`run` iteration after the instruction was executed, for the
+instructions handled by `step_sim`. -/
+theorem after_step_sim {prog : Prog} {inp : Input} {limit sf : Nat} (ih : RunSimAt prog inp limit sf)
+    (fwd : Bool) {st : Bt.State} {bts : Array BtInsn} {saved : List Pk.State} {cur : Pk.State}
+    (steps peakB peakP : Nat) {J : Option Nat} (hrel : StRel prog cur.ip st cur)
+    (hJ : encl prog cur.ip = J) (hfuel : limit ≤ steps + sf)
+    {a : Bt.Act} {m : Pk.SM} (hsim : StepSim prog st bts cur saved steps peakP a m)
+    (hin : ActIn prog (enclIs prog J) allTrue allTrue allTrue cur.ip st bts a)
+    (hnolook : ∀ d n sg eg k st' bts', a ≠ .look d n sg eg k st' bts') :
+    OutSim prog J steps
+      (match a with
+       | .err e => .error e
+       | .goal pos st => .matched pos st steps peakB
+       | .cont ip pos st bts' => Bt.run prog inp limit sf ip pos fwd st bts' steps peakB
+       | .back st bts' => backtrackThen prog inp limit sf fwd st bts' steps peakB
+       | .look _ _ _ _ _ _ _ => .outOfFuel)
+      (pkAfter prog inp limit (sf + 1) saved.reverse.toArray fwd m) := by
+  cases hsim with
+  | errB e a => exact OutSim.errB _ _
+  | errP a e => exact OutSim.errP _ _
+  | goal hg => exact ⟨rfl, rfl, Nat.le_refl _, rfl, hrel, hJ⟩
+  | cont ip' pos' st' bts' s' h1 h2 h3 h4 =>
+    subst h1; subst h2
+    simp only [ActIn, enclIs, beq_iff_eq] at hin
+    exact ih fwd st' bts' saved s' steps _ _ J h3 h4 hfuel hin.1 hin.2.1
+  | split ip' pos' st' bts' s new h1 h2 h3 h4 =>
+    subst h1; subst h2
+    simp only [ActIn, enclIs, beq_iff_eq] at hin
+    simp only [pkAfter]
+    rw [← reverse_cons_toArray]
+    exact ih fwd st' bts' (s :: saved) new steps _ _ J h3 h4 hfuel hin.1 hin.2.1
+  | back st' bts' s' h4 =>
+    simp only [ActIn] at hin
+    exact back_sim ih fwd steps _ _ h4 hfuel hin.1
+
+theorem enclAux_lookOver {prog : Prog} {x n j : Nat} (h : enclAux prog x n = some j) :
+    lookOver prog j x = true := by
+  induction n with
+  | zero => simp [enclAux] at h
+  | succ n ih =>
+    simp only [enclAux] at h
+    split at h
+    · next hn => cases h; exact hn
+    · exact ih h
+
+/-- If `encl x = some j` then `x` lies in the body of the look-around at `j`. -/
+theorem encl_some {prog : Prog} {x j : Nat} (h : encl prog x = some j) {i : Insn} {sg eg k : Nat}
+    (hi : prog.insns[j]? = some i) (hl : lookOf i = some (sg, eg, k)) : j < x ∧ x < k := by
+  refine ⟨enclAux_some h, ?_⟩
+  have := enclAux_lookOver h
+  simpa [lookOver, hi, hl] using this
+
+/-- Pushing the saved-group records of a positive look-around. -/
+theorem snapRel_pushSaved (prog : Prog) (saved : List GroupData) :
+    ∀ (id : Nat) (bts : Array BtInsn) (st2 : Bt.State) (pk : List Pk.State),
+      SnapRel prog bts (rewindL prog (savedRecs saved id).reverse st2) pk →
+      SnapRel prog (bts ++ (savedRecs saved id).toArray) st2 pk := by
+  induction saved with
+  | nil => intro id bts st2 pk h; simpa [savedRecs, rewindL] using h
+  | cons c rest ih =>
+    intro id bts st2 pk h
+    simp only [savedRecs]
+    rw [append_cons_toArray]
+    apply ih
+    refine .groupRec _ _ _ _ _ ?_
+    have hne : ∀ r ∈ (savedRecs rest (id + 1)).reverse, r ≠ .exhausted := by
+      intro r hr; exact savedRecs_ne_exhausted (List.mem_reverse.1 hr)
+    simp only [savedRecs, List.reverse_cons] at h
+    rw [rewindL_append prog _ _ _ hne] at h
+    simpa [rewindL, restore] using h
+
+set_option linter.unusedSimpArgs false in
+/-- **A look-around instruction**: the nested runs correspond (induction hypothesis), and so do the
+continuations of the two machines. -/
+theorem look_sim {prog : Prog} (hs : loopsStructured prog = true) (hl : looksStructured prog = true)
+    {inp : Input} {limit sf : Nat} (ih : RunSimAt prog inp limit sf)
+    (fwd : Bool) {st : Bt.State} {bts : Array BtInsn} {saved : List Pk.State} {cur : Pk.State}
+    (steps peakB peakP : Nat) {J : Option Nat} (hrel : StRel prog cur.ip st cur)
+    (hsnap : SnapRel prog bts st saved) (hfuel : limit ≤ steps + sf)
+    (hJ : encl prog cur.ip = J) (hb : RecsIn prog (enclIs prog J) allTrue allTrue bts)
+    {i : Insn} (hi : prog.insns[cur.ip]? = some i) {sg eg k : Nat} (hlk : lookOf i = some (sg, eg, k))
+    (dirFwd negate : Bool) :
+    OutSim prog J steps
+      (if sg > eg || eg > st.groups.size then
+        .error "run_lookaround: groups.iat(start_group..end_group) out of range"
+       else
+        afterLook prog inp limit sf cur.pos fwd negate sg k (st.groups.extract sg eg).toList bts
+          (Bt.run prog inp limit sf (cur.ip + 1) cur.pos dirFwd st #[.exhausted] steps peakB))
+      (pkAfter prog inp limit (sf + 1) saved.reverse.toArray fwd
+        (Pk.lookArm (fun s0 dirFwd steps peak => Pk.runStates prog inp limit (sf + 1) #[s0] dirFwd steps peak)
+          dirFwd negate k cur steps peakP)) := by
+  split
+  · exact OutSim.errB _ _
+  · next hse =>
+    simp only [Bool.or_eq_true, decide_eq_true_eq] at hse
+    obtain ⟨-, hlook⟩ := looks_at hl hi
+    obtain ⟨hE1, hL1, hL2⟩ := hlook sg eg k hlk
+    obtain ⟨hk, hReg⟩ := lookClosed_region (looks_closed hl) hi hlk
+    have hmem1 : cur.ip + 1 ∈ succs prog cur.ip := by
+      cases i <;> simp [lookOf] at hlk <;> simp [succs, hi]
+    have hmemk : k ∈ succs prog cur.ip := by
+      cases i <;> simp [lookOf] at hlk <;> simp [succs, hi, hlk]
+    have hsucc1 : ∀ id, live prog id (cur.ip + 1) = true → live prog id cur.ip = true :=
+      fun id h => structured_succ hs hi hmem1 h
+    have hsucck : ∀ id, live prog id k = true → live prog id cur.ip = true :=
+      fun id h => structured_succ hs hi hmemk h
+    -- the loops of the body are dead wherever this run's stack resumes, and at `k`
+    have hdeadk : ∀ id, bodyLoop prog cur.ip k id = true → live prog id k = false := by
+      intro id hbl
+      cases hlv : live prog id k
+      · rfl
+      · have := hL2 id hbl k hlv; omega
+    have hdead : ∀ r ∈ bts, ∀ x, resumeIp r = some x → ∀ id, bodyLoop prog cur.ip k id = true →
+        live prog id x = false := by
+      intro r hr x hx id hbl
+      have hrin := hb r hr
+      have hex : encl prog x = J := by
+        cases r <;> simp only [resumeIp, Option.some.injEq, reduceCtorEq] at hx
+        · subst hx; simpa [recIn, enclIs] using hrin
+        · subst hx
+          simp only [recIn, Bool.and_eq_true, enclIs, beq_iff_eq] at hrin
+          exact hrin.1
+      cases hlv : live prog id x
+      · rfl
+      · obtain ⟨h1, h2⟩ := hL2 id hbl x hlv
+        exact absurd (hex.trans hJ.symm) (encl_body_ne hi hlk h1 h2)
+    -- the nested runs
+    have hrel_in : StRel prog (cur.ip + 1) st { cur with ip := cur.ip + 1 } := hrel.mono rfl rfl hsucc1
+    have hinner := ih dirFwd st #[.exhausted] [] { cur with ip := cur.ip + 1 } steps peakB peakP
+      (some cur.ip) hrel_in (.bottom #[] st) hfuel hE1 (by intro r hr; simp at hr; subst hr; rfl)
+    have hfp := run_in prog _ _ _ hReg inp limit sf (cur.ip + 1) cur.pos dirFwd st #[.exhausted] steps peakB
+      (by simp [inBody]; omega) (by intro r hr; simp at hr; subst hr; rfl)
+    simp only [List.reverse_nil, List.push_toArray, List.nil_append] at hinner
+    simp only [Pk.lookArm]
+    generalize Bt.run prog inp limit sf (cur.ip + 1) cur.pos dirFwd st #[.exhausted] steps peakB = ob
+      at hinner hfp
+    generalize Pk.runStates prog inp limit (sf + 1) #[{ cur with ip := cur.ip + 1 }] dirFwd steps peakP = op
+      at hinner
+    cases ob with
+    | error e => exact OutSim.errB _ _
+    | outOfFuel =>
+      cases op <;> simp only [OutSim] at hinner
+      · trivial
+      · exact OutSim.errP _ _
+    | matched e st2 s2 p2 =>
+      cases op with
+      | error e' => exact OutSim.errP _ _
+      | failed _ _ => exact absurd hinner id
+      | outOfFuel => exact absurd hinner id
+      | matched e' q2 s2' p2' =>
+        obtain ⟨-, hs2, hle, -, hrel2, hE2⟩ := hinner
+        subst hs2
+        have hfuel2 : limit ≤ s2 + sf := by omega
+        have hq := encl_some hE2 hi hlk
+        simp only [afterLook, OutIn] at hfp ⊢
+        cases negate
+        · -- positive look-around matched: continue at `k`
+          simp only [Bool.not_false, if_true, bne_iff_ne, ne_eq, Bool.true_eq_false, not_false_eq_true,
+            pkAfter]
+          refine (ih fwd st2 _ saved { q2 with ip := k, pos := cur.pos } s2 p2 p2' J ?_ ?_ hfuel2 ?_ ?_).mono hle
+          · refine ⟨hrel2.groups, hrel2.lsize, ?_⟩
+            intro id hlv
+            exact hrel2.loops id (hL1 id hlv q2.ip hq.1 hq.2)
+          · rw [pushSavedGroups_eq]
+            apply snapRel_pushSaved
+            exact hsnap.congr (restoreSaved_agree prog hfp hse) hdead
+          · have := (looks_at hl hi).1
+            cases i <;> simp [lookOf] at hlk <;>
+              simp only [insnIn, Bool.and_eq_true, enclIs, beq_iff_eq] at this <;>
+              (obtain ⟨-, -, rfl⟩ := hlk; rw [this.1.2, hJ])
+          · exact recsIn_pushSaved hb _ sg eg (fun _ _ _ => rfl) (extract_length_le _ _ _)
+        · -- negative look-around matched: fail
+          simp only [Bool.not_true, Bool.false_eq_true, if_false, bne_self_eq_false, pkAfter]
+          exact (back_sim ih fwd s2 p2 p2' (hsnap.congr (splice_restores hfp hse) hdead) hfuel2 hb).mono hle
+    | failed st2 s2 p2 =>
+      cases op with
+      | error e' => exact OutSim.errP _ _
+      | matched _ _ _ _ => exact absurd hinner id
+      | outOfFuel => exact absurd hinner id
+      | failed s2' p2' =>
+        obtain ⟨hs2, hle⟩ := hinner
+        subst hs2
+        have hfuel2 : limit ≤ s2 + sf := by omega
+        simp only [afterLook, OutIn] at hfp ⊢
+        have hagree := splice_restores hfp hse
+        cases negate
+        · -- positive look-around failed: fail
+          simp only [Bool.false_eq_true, if_false, bne_self_eq_false, pkAfter]
+          exact (back_sim ih fwd s2 p2 p2' (hsnap.congr hagree hdead) hfuel2 hb).mono hle
+        · -- negative look-around failed: continue at `k` with the state before the look-around
+          simp only [if_true, bne_iff_ne, ne_eq, Bool.false_eq_true, not_false_eq_true, pkAfter]
+          refine (ih fwd _ bts saved { cur with ip := k } s2 p2 p2' J ?_ (hsnap.congr hagree hdead)
+            hfuel2 ?_ hb).mono hle
+          · exact (hrel.mono (p' := { cur with ip := k }) rfl rfl hsucck).congr hagree hdeadk
+          · have := (looks_at hl hi).1
+            cases i <;> simp [lookOf] at hlk <;>
+              simp only [insnIn, Bool.and_eq_true, enclIs, beq_iff_eq] at this <;>
+              (obtain ⟨-, -, rfl⟩ := hlk; rw [this.1.2, hJ])
+
+theorem simple_of_noLook {i : Insn} (h1 : noLoop1Insn i = true) (h2 : lookOf i = none) :
+    simpleInsn i = true := by
+  cases i <;> simp_all [noLoop1Insn, lookOf, simpleInsn]
 
 /-- **Lock-step simulation.** On related configurations (PikeVM stack = saved states for the choice
 records of `bts`, bottom first, then the current state) the two runs produce corresponding outcomes. -/
-theorem run_sim {prog : Prog} (hs : loopsStructured prog = true) (hsimple : simpleProg prog = true)
-    {inp : Input} (hok : inpOK inp = true) (limit : Nat) :
-    ∀ (sf : Nat) (fwd : Bool) (st : Bt.State) (bts : Array BtInsn) (saved : List Pk.State)
-      (cur : Pk.State) (steps peakB peakP : Nat),
-      StRel prog cur.ip st cur → SnapRel prog bts st saved → limit ≤ steps + sf →
-      OutSim (Bt.run prog inp limit sf cur.ip cur.pos fwd st bts steps peakB)
-        (Pk.runStates prog inp limit (sf + 1) (saved.reverse.toArray.push cur) fwd steps peakP) := by
+theorem run_sim {prog : Prog} (hs : loopsStructured prog = true) (hl : looksStructured prog = true)
+    (hsimple : simpleProg prog = true) {inp : Input} (hok : inpOK inp = true) (limit : Nat) :
+    ∀ sf, RunSimAt prog inp limit sf := by
   intro sf
   induction sf with
   | zero =>
-    intro fwd st bts saved cur steps peakB peakP _ _ hlim
+    intro fwd st bts saved cur steps peakB peakP J _ _ hlim _ _
     rw [run_zero, Pk.runStates]
     simp only [Array.back?_push]
     have : steps ≥ limit := by omega
     simp [this, OutSim]
   | succ sf ih =>
-    intro fwd st bts saved cur steps peakB peakP hrel hsnap hlim
-    rw [run_succ, Pk.runStates]
-    simp only [Array.back?_push]
+    intro fwd st bts saved cur steps peakB peakP J hrel hsnap hlim hJ hb
+    rw [run_succ, runStates_succ_push]
     by_cases hge : steps ≥ limit
     · simp [hge, OutSim]
     · simp only [hge, if_false]
-      have hsim := step_sim hs hsimple hok
-        (fun s0 dirFwd steps peak => Pk.runStates prog inp limit (sf + 1) #[s0] dirFwd steps peak)
-        prog.insns.size fwd (steps + 1)
-        (if peakP < (saved.reverse.toArray.push cur).size then (saved.reverse.toArray.push cur).size else peakP)
-        hrel hsnap
-      generalize Bt.step prog inp cur.ip cur.pos fwd st bts = a at hsim ⊢
-      generalize Pk.tryMatchState prog inp _ (prog.insns.size + 1) cur fwd (steps + 1) _ = m at hsim ⊢
-      cases hsim with
-      | errB e a => trivial
-      | errP a e => exact OutSim.errP _ _
-      | goal hg => exact ⟨rfl, hg, rfl, rfl⟩
-      | cont ip' pos' st' bts' s' h1 h2 h3 h4 =>
-        subst h1; subst h2
-        simp only [Array.pop_push]
-        exact ih fwd st' bts' saved s' (steps + 1) _ _ h3 h4 (by omega)
-      | split ip' pos' st' bts' s new h1 h2 h3 h4 =>
-        subst h1; subst h2
-        simp only [Array.pop_push]
-        have : (saved.reverse.toArray.push s) = (s :: saved).reverse.toArray := by simp
-        rw [this]
-        exact ih fwd st' bts' (s :: saved) new (steps + 1) _ _ h3 h4 (by omega)
-      | back st' bts' s' h4 =>
-        simp only [Array.pop_push, backtrackThen]
-        rcases tryBacktrack_sim prog inp fwd h4 with ⟨e, he⟩ | hres
-        · rw [he]; trivial
-        · cases saved with
-          | nil =>
-            obtain ⟨st'', bts'', he⟩ := hres
-            rw [he, Pk.runStates]
-            simp [OutSim]
-          | cons s saved' =>
-            obtain ⟨st'', bts'', he, h5, h6⟩ := hres
-            rw [he]
-            have : (s :: saved').reverse.toArray = saved'.reverse.toArray.push s := by simp
-            rw [this]
-            exact ih fwd st'' bts'' saved' s (steps + 1) _ _ h5 h6 (by omega)
+      cases hinsn : prog.insns[cur.ip]? with
+      | none =>
+        have : Bt.step prog inp cur.ip cur.pos fwd st bts = .err "try_at_pos: insns.iat(ip) out of range" := by
+          unfold Bt.step; simp [hinsn]
+        rw [this]; exact OutSim.errB _ _
+      | some insn =>
+        cases hlk : lookOf insn with
+        | none =>
+          have hsimple' : ∀ i, prog.insns[cur.ip]? = some i → simpleInsn i = true := by
+            intro i hi; rw [hinsn] at hi; cases hi
+            exact simple_of_noLook (noLoop1_of_getElem? hsimple hinsn) hlk
+          have hsim := step_sim hs hok
+            (fun s0 dirFwd steps peak => Pk.runStates prog inp limit (sf + 1) #[s0] dirFwd steps peak)
+            prog.insns.size fwd (steps + 1)
+            (if peakP < (saved.reverse.toArray.push cur).size then (saved.reverse.toArray.push cur).size
+             else peakP) hsimple' hrel hsnap
+          have hin := step_in prog (enclIs prog J) allTrue allTrue allTrue (region_encl hl J) inp cur.ip
+            cur.pos fwd st bts (by simp [enclIs, hJ]) hb
+          have hfr := step_frame prog inp cur.ip cur.pos fwd st bts
+          generalize Bt.step prog inp cur.ip cur.pos fwd st bts = a at hsim hin hfr ⊢
+          generalize Pk.tryMatchState prog inp _ (prog.insns.size + 1) cur fwd (steps + 1) _ = m at hsim ⊢
+          have hnolook : ∀ d n sg eg k st' bts', a ≠ .look d n sg eg k st' bts' := by
+            intro d n sg eg k st' bts' he
+            subst he
+            obtain ⟨-, -, i, hi, hl'⟩ := hfr
+            rw [hinsn] at hi; cases hi; rw [hlk] at hl'; cases hl'
+          have := (after_step_sim ih fwd (steps + 1) (if peakB < bts.size then bts.size else peakB) _
+            hrel hJ (by omega) hsim hin hnolook).mono (Nat.le_succ steps)
+          cases a with
+          | look d n sg eg k st' bts' => exact absurd rfl (hnolook d n sg eg k st' bts')
+          | _ => exact this
+        | some t =>
+          obtain ⟨sg, eg, k⟩ := t
+          cases insn <;> simp only [lookOf, Option.some.injEq, Prod.mk.injEq, reduceCtorEq] at hlk
+          · next neg sg' eg' k' =>
+            obtain ⟨rfl, rfl, rfl⟩ := hlk
+            have hB : Bt.step prog inp cur.ip cur.pos fwd st bts = .look true neg sg' eg' k' st bts := by
+              unfold Bt.step; simp [hinsn]
+            rw [hB, Pk.tryMatchState]
+            simp only [hinsn]
+            exact (look_sim hs hl ih fwd (steps + 1) _ _ hrel hsnap (by omega) hJ hb hinsn rfl true neg).mono
+              (Nat.le_succ steps)
+          · next neg sg' eg' k' =>
+            obtain ⟨rfl, rfl, rfl⟩ := hlk
+            have hB : Bt.step prog inp cur.ip cur.pos fwd st bts = .look false neg sg' eg' k' st bts := by
+              unfold Bt.step; simp [hinsn]
+            rw [hB, Pk.tryMatchState]
+            simp only [hinsn]
+            exact (look_sim hs hl ih fwd (steps + 1) _ _ hrel hsnap (by omega) hJ hb hinsn rfl false neg).mono
+              (Nat.le_succ steps)
 
 theorem live_zero (prog : Prog) (id : Nat) : live prog id 0 = false := by
   simp [live]
 
 /-- The initial configurations of `classicalbacktrack::verif_attempt` and `pikevm::verif_attempt`
 are related, hence so are the outcomes of the attempts (with the same tick budget). -/
-theorem attempt_sim {prog : Prog} (hs : loopsStructured prog = true) (hsimple : simpleProg prog = true)
-    {inp : Input} (hok : inpOK inp = true) (fuel pos : Nat) :
-    OutSim (Bt.attempt prog inp fuel pos) (Pk.attempt prog inp fuel pos) := by
+theorem attempt_sim {prog : Prog} (hs : loopsStructured prog = true) (hl : looksStructured prog = true)
+    (hsimple : simpleProg prog = true) {inp : Input} (hok : inpOK inp = true) (fuel pos : Nat) :
+    OutSim prog none 0 (Bt.attempt prog inp fuel pos) (Pk.attempt prog inp fuel pos) := by
   have hrel : StRel prog (Pk.initState prog pos pos).ip (freshState prog 0) (Pk.initState prog pos pos) :=
     ⟨rfl, by simp [Pk.initState, freshState], fun id h => by simp [Pk.initState, live_zero] at h⟩
-  have h := run_sim hs hsimple hok fuel fuel true (freshState prog 0) #[.exhausted] []
-    (Pk.initState prog pos pos) 0 0 0 hrel (.bottom #[] _) (by omega)
+  have h := run_sim hs hl hsimple hok fuel fuel true (freshState prog 0) #[.exhausted] []
+    (Pk.initState prog pos pos) 0 0 0 none hrel (.bottom #[] _) (by omega) rfl
+    (by intro r hr; simp at hr; subst hr; rfl)
   exact h
 
 end Regress.VM.Sim
